@@ -193,6 +193,9 @@ def classify_payload(repo: Repo, ci: Optional[ClassInfo], e: ast.expr, sf=None) 
             inner = a.value if isinstance(a, ast.Starred) else a
             if isinstance(inner, ast.Call) and norm(inner.func) == "reversed":
                 transform = "reversed"
+            if isinstance(inner, ast.Subscript) and isinstance(inner.slice, ast.Slice) and inner.slice.step is not None and norm(inner.slice.step) == "-1" \
+                    and inner.slice.lower is None and inner.slice.upper is None:
+                transform = "reversed"
             src += attr_reads(inner)
             if not attr_reads(inner) and isinstance(inner, ast.Name):
                 src.append(inner.id)
@@ -512,11 +515,18 @@ def classify_handler(repo: Repo, ci: ClassInfo, cid: str, fn: ast.FunctionDef) -
         v = st.value
         call = v
         transform = ""
-        # tuple(reversed(unpack(...)))
-        while isinstance(call, ast.Call) and norm(call.func) in ("tuple", "reversed", "list") and len(call.args) == 1:
-            if norm(call.func) == "reversed":
-                transform = "reversed"
-            call = call.args[0]
+        # tuple(reversed(unpack(...)))  /  unpack(...)[::-1]
+        while True:
+            if isinstance(call, ast.Call) and norm(call.func) in ("tuple", "reversed", "list") and len(call.args) == 1:
+                if norm(call.func) == "reversed":
+                    transform = "" if transform == "reversed" else "reversed"
+                call = call.args[0]
+            elif isinstance(call, ast.Subscript) and isinstance(call.slice, ast.Slice) and call.slice.lower is None and call.slice.upper is None \
+                    and call.slice.step is not None and norm(call.slice.step) == "-1":
+                transform = "" if transform == "reversed" else "reversed"
+                call = call.value
+            else:
+                break
         if isinstance(call, ast.Call) and norm(call.func) in ("unpack", "struct.unpack") and len(call.args) == 2 \
                 and norm(call.args[1]) == data:
             row.shape = "unpack"
